@@ -69,11 +69,29 @@ Definition finish (post : list action) (order : list nat) (fuel : nat) (st : sta
   let s1 := do_action F st AStop in
   outcome s1 (settle (run F s1 post) order fuel).
 
+(** how the blocking code of a session was loaded *)
+Inductive loader := LEval | LEvalCtx | LEvalPath | LImport.
+
+(** session: (an EvalWithContext of something trivial first, or not); the code
+      var ch = make(chan int); func blk() int { <blocking construct c on ch>; return 1 }
+    loaded by [ld]; then EvalWithContext(ctx, "blk()"), cancelled while blocked.
+    Functions: 0 = the loaded declarations, 1 = blk, 2 = the expression blk(), 3 = something trivial *)
+Definition sess_load (first_ctx : bool) (ld : loader) : list action :=
+  (if first_ctx then session [PRoot 3] ++ alone 0 4 else [])
+  ++ match ld with
+     | LEvalCtx => [ABegin; AExecute [PRoot 0]]
+     | LEval | LEvalPath | LImport => [AExecute [PRoot 0]]
+     end.
+Definition sess_t0 (first_ctx : bool) : nat := if first_ctx then 2 else 1.
+Definition sess_F (first_ctx : bool) (ld : loader) (c : construct) : list (list instr) :=
+  [ [Nop]; [Nop; Block (gen_canc c (begun (sess_load first_ctx ld))); Ret]; [Nop; Call 1]; [Nop] ].
+
 Inductive scen :=
 | SPark (pre : list action) (t0 : nat) (p : list phase) (blocked : bool)
         (post : list action) (order : list nat) (tb : nat)
 | SExpired (p : list phase)
-| SConc (nthreads : nat).
+| SConc (nthreads : nat)
+| SSess (first_ctx : bool) (ld : loader) (c : construct).
 
 Definition y_outcomes (s : scen) : list (bool * list nat * nat) :=
   match s with
@@ -95,9 +113,10 @@ Definition y_outcomes (s : scen) : list (bool * list nat * nat) :=
                             | _ => []
                             end) (seq 0 16)
   | SConc _ => []
+  | SSess _ _ _ => []
   end.
 
-Definition y_ok (s : scen) (o : obs) : bool :=
+Definition y_ok0 (s : scen) (o : obs) : bool :=
   match s with
   | SConc n =>
       (* C09_gate_partial / C09_ticks / C09_exits: whatever the schedule *)
@@ -105,13 +124,28 @@ Definition y_ok (s : scen) (o : obs) : bool :=
   | _ => o_ret o && existsb (outcome_eqb o) (y_outcomes s)
   end.
 
+End C09.
+
+(** sessions bring their own function table: the cancellability of blk's blocking operation is
+    decided by the session prefix (Model.gen_canc) *)
+Definition sess_park (first_ctx : bool) (ld : loader) : scen :=
+  SPark (sess_load first_ctx ld ++ alone (sess_t0 first_ctx - 1) 6) (sess_t0 first_ctx) [PRoot 2] true [] [sess_t0 first_ctx] 0.
+
+Definition y_ok (F : list (list instr)) (s : scen) (o : obs) : bool :=
+  match s with
+  | SSess first ld c => y_ok0 (sess_F first ld c) (sess_park first ld) o
+  | _ => y_ok0 F s o
+  end.
+
+Section C09g.
+
 (** the contract: the call returns the context's error; nobody executes more than the operation in
     flight; at most one visible effect per goroutine that was running; every goroutine exits *)
 Definition g_ok (s : scen) (o : obs) : bool :=
-  let n := match s with SPark _ _ _ _ _ _ _ => 1 | SExpired _ => 0 | SConc k => k end in
+  let n := match s with SPark _ _ _ _ _ _ _ => 1 | SExpired _ => 0 | SConc k => k | SSess _ _ _ => 1 end in
   o_ret o && negb (o_many o) && (o_left o =? 0) && (List.length (o_after o) <=? n).
 
-End C09.
+End C09g.
 
 Definition c09_case := (N * list (list instr) * scen * obs * bool)%type.
 
